@@ -188,12 +188,14 @@ class PyFormulas:
                             self.defs.setdefault(a.id, []).append(b)
         self.branch = {}
         for n in ast.walk(self.f):
-            if isinstance(n, ast.If) and "type(system.space) == " in pyfe.src(n.test):
-                which = "graph" if "RDGraphSpace" in pyfe.src(n.test) else "grid"
+            from . import pysym
+            tsrc = pysym.isrc(n.test, self.f) if isinstance(n, ast.If) else ""
+            if isinstance(n, ast.If) and "type(system.space) == " in tsrc:
+                which = "graph" if "RDGraphSpace" in tsrc else "grid"
                 if any(isinstance(x, ast.Return) for x in n.body) and which not in self.branch:
                     self.branch[which] = n
                 for o in n.orelse:
-                    if isinstance(o, ast.If) and "RDGridSpace" in pyfe.src(o.test) and any(isinstance(x, ast.Return) for x in o.body):
+                    if isinstance(o, ast.If) and "RDGridSpace" in pysym.isrc(o.test, self.f) and any(isinstance(x, ast.Return) for x in o.body):
                         self.branch["grid"] = o
         if set(self.branch) != {"graph", "grid"}:
             raise AnalysisError("compute_diffusion_rates: graph / grid branches not found")
@@ -241,8 +243,10 @@ class PyFormulas:
                 if "volumes" in self.defs or True:
                     return S_("V" + ("i" if a.startswith("src") else "j" if a.startswith("dst") else "?"))
             ev = e.value if isinstance(e, ast.Attribute) else None
-            if isinstance(ev, ast.Name) and len(self.defs.get(ev.id, ())) == 1:
-                ev = self.defs[ev.id][0]          # edge = system.space.get_edge(...); edge.surface
+            if isinstance(ev, ast.Name):
+                real = [d_ for d_ in self.defs.get(ev.id, ()) if not (isinstance(d_, ast.Constant) and d_.value is None)]
+                if len(real) == 1:
+                    ev = real[0]          # edge = system.space.get_edge(...); edge.surface  (an `edge = None` default aside)
             if isinstance(e, ast.Attribute) and e.attr in ("surface", "distance") and isinstance(ev, ast.Call) and \
                     pyfe.call_name(ev).endswith("get_edge"):
                 args = [pyfe.src(a) for a in ev.args]
